@@ -17,7 +17,7 @@ Qed.
 Lemma sat64_port v : (0 < sat64 v <= 65535)%Z -> sat64 v = v.
 Proof.
   unfold sat64, two63.
-  destruct (v >? 9223372036854775808 - 1)%Z eqn:E1; destruct (v <? - 9223372036854775808)%Z eqn:E2; cbv beta iota; intros H; lia.
+  destruct (v >? _)%Z eqn:E1; [cbv beta iota; intros H; lia|]. destruct (v <? _)%Z eqn:E2; cbv beta iota; intros H; lia.
 Qed.
 
 Lemma wrap32_id v : (- two31 <= v < two31)%Z -> wrap32 v = v.
